@@ -1224,11 +1224,20 @@ def _to_real_index(idx):
     return tuple(f(i) for i in idx) if isinstance(idx, tuple) else f(idx)
 
 
+def _has_real(ev):
+    xs = ev.reshape(-1) if isinstance(ev, np.ndarray) else [ev]
+    return any(isinstance(x, (core.SReal, float, core.Q)) for x in xs)
+
+
 @reg("__setitem__")
 def _setitem(a, idx, v):
     ev = E(v)
     if isinstance(ev, np.ndarray) and ev.ndim == 0:
         ev = ev[()]
+    # writing into an integer tensor converts like torch does (truncation towards zero)
+    src_dtype = v.dtype if isinstance(v, torch.Tensor) else None
+    if a.dtype in INTS and (src_dtype in FLOATS or (src_dtype is None and _has_real(ev))):
+        ev = _v1(e_toint, ev) if isinstance(ev, np.ndarray) else e_toint(ev)
     dest(a)[_cidx_all(idx)] = ev        # a real destination is shadowed (see SHADOW)
     return None
 
